@@ -1120,7 +1120,7 @@ class Interp:
             if callee is None:
                 prog = getattr(self.body.crate, "program", None)
                 callee = prog.by_key.get(tdef) if prog is not None else None
-            if callee is not None and len(self.uid_prefix) < 3:
+            if callee is not None and len(self.uid_prefix) < self._max_depth():
                 # a shared reference to a caller local is passed as a reference to its current value
                 # (the callee cannot write through it); &mut references to caller locals are not inlined
                 iargs = tuple(self._ref_values(st, a) if (argtys0[i] if i < len(argtys0) else "").startswith("&") and not (argtys0[i] if i < len(argtys0) else "").startswith("&mut") else self._share_captures(st, a) for i, a in enumerate(args))
@@ -1170,7 +1170,7 @@ class Interp:
         if not fnitem and not (isinstance(clos, tuple) and clos and clos[0] == "agg" and isinstance(clos[1], tuple) and clos[1] and clos[1][0] == "closure"):
             return None
         cb = self.body.crate.by_key.get(clos[1] if fnitem else clos[1][1])
-        if cb is None or len(self.uid_prefix) >= 3:
+        if cb is None or len(self.uid_prefix) >= self._max_depth():
             return None
         cv = self._share_captures(st, clos)
         cargs = tuple(self._ref_values(st, a) for a in cargs)
@@ -1273,6 +1273,10 @@ class Interp:
         self.inlined_subs = getattr(self, "inlined_subs", [])
         self.inlined_subs.append(sub)
         return outs
+
+    def _max_depth(self):
+        """nesting bound of helper / closure inlining (a guard against blow-up; "deep" for straight-line numeric code)"""
+        return 7 if "deep" in self.features else 3
 
     def _share_captures(self, st, a):
         """a closure value whose captures by shared reference of caller locals are replaced by references to the
